@@ -212,7 +212,8 @@ class ProgramGen(object):
             v = r.choice(cands)
             return S(['%s = [%s]; quiet(%d)' % (v, v, i)], k, i, is_expr=True)
         if k == 'import':
-            return S(['import os.path as m%d' % i, 'quiet(%d)' % i], k, i, is_expr=True, ps1_lines=(1,))
+            first = r.choice(['import os.path as m%d' % i, 'from os import path as m%d' % i])
+            return S([first, 'quiet(%d)' % i], k, i, is_expr=True, ps1_lines=(1,))
         raise KeyError(k)
 
 
